@@ -8,6 +8,12 @@ from .absint import Raised, Unsupported, BOOL, _norm
 def _fresh_elem(I, st, star, idx, hint=''):
     """a generic element standing for one member of a Star run"""
     if star.cls is not None:
+        if star.cls.startswith('@enum:'):
+            # (index, element) of the underlying run; the element is the one a subscript with that index would read
+            base = Star(star.tag, star.cls[6:] or None, star.nonempty)
+            ix = I.symbol('enum(%s)[%s]%s' % (star.tag, idx, hint), frozenset([0, 1]))
+            ix = Num(ix.p, True)
+            return TupleV([ix, _fresh_elem(I, st, base, repr(ix.p))])
         if star.cls.startswith('@'):
             return Opaque('%s[%s]%s' % (star.tag, idx, hint))
         oid = '%s[%s]%s' % (star.tag, idx, hint)
